@@ -416,3 +416,24 @@ package openapi3
 // C13: the schema visit never touches the request the value was decoded from
 //@ extend func (*Schema).VisitJSON
 //@   preserves @C13 http.Request.*, url.URL.*, http.Header, openapi3filter.RequestValidationInput.*, openapi3filter.Options.*
+
+// ---- C13: defaults of a oneOf / anyOf alternative that does not match never reach the value. In
+// request / response mode the visitor may write defaults into the maps of the value it is given
+// (and nowhere else: ASSUMED here for visitJSON - its body is proved under C01/C12 for the mode
+// without default-setting only). visitXOFOperations hands every candidate a deep copy, so the
+// candidate loops leave every object that existed before untouched; only the re-run on the matched
+// alternative works on the value itself.
+//@ view C13 func (*Schema).visitJSON
+//@   modifies *
+//@   preserves all(openapi3), schemaValidationSettings.asreq, schemaValidationSettings.asrep, Schema.OneOf, Schema.AnyOf, []*SchemaRef, SchemaRef.Value
+//@   defines forall r ref :: old(allocated(r)) && !inTree(value, r) ==> sameAt("map[string]any", r) && sameAt("[]any", r)
+//@ view C13 func (*Schema).visitXOFOperations
+//@   requires schema != nil && settings != nil
+//@   assuming settings.asreq || settings.asrep
+//@   modifies *
+//@   loop 0 invariant settings.asreq || settings.asrep
+//@   loop 0 invariant forall r ref :: old(allocated(r)) ==> sameAt("map[string]any", r) && sameAt("[]any", r)
+//@   loop 1 invariant settings.asreq || settings.asrep
+//@   loop 1 invariant len(schema.OneOf) == 0 ==> (forall r ref :: old(allocated(r)) ==> sameAt("map[string]any", r) && sameAt("[]any", r))
+//@   option safety-tags none
+//@   tag C13
